@@ -67,6 +67,7 @@ type WE struct {
 	fresh     map[*ssa.Function]int // 0 unknown/in progress, 1 fresh, 2 not fresh
 	extCalls  map[*ssa.Function][]string
 	rootCache map[ssa.Value][]Root
+	resBusy   map[*ssa.Function]bool // functions whose result roots are being computed
 }
 
 type callSite struct {
@@ -405,11 +406,17 @@ func (w *WE) rootsRec(v ssa.Value, seen map[ssa.Value]bool) []Root {
 
 // resultRoots: roots (in f's own terms) of the reference-typed results of f.
 func (w *WE) resultRoots(f *ssa.Function, busy map[*ssa.Function]bool) []Root {
-	if busy[f] {
+	// (a recursive function's own result contributes nothing new to its result)
+	if busy[f] || w.resBusy[f] {
 		return nil
 	}
 	busy[f] = true
 	defer delete(busy, f)
+	if w.resBusy == nil {
+		w.resBusy = map[*ssa.Function]bool{}
+	}
+	w.resBusy[f] = true
+	defer delete(w.resBusy, f)
 	var rs []Root
 	for _, b := range f.Blocks {
 		for _, ins := range b.Instrs {
